@@ -1348,6 +1348,64 @@ func (g *goLayouts) decoderLayout(fd *ast.FuncDecl) *decResult {
 		}
 		return true
 	})
+	// an open tail handed to a helper that stores it into a field (m.setPayload(buf[off:], copy))
+	if res.tail == "" {
+		ast.Inspect(fd.Body, func(n ast.Node) bool {
+			ce, ok := n.(*ast.CallExpr)
+			if !ok {
+				return true
+			}
+			fn := g.calleeOf(ce)
+			if fn == nil {
+				return true
+			}
+			hd := g.decls[fn]
+			if hd == nil || hd.Body == nil {
+				return true
+			}
+			for ai, a := range ce.Args {
+				if !g.isOpenTail(a) {
+					continue
+				}
+				// the ai-th parameter of the helper
+				var prm types.Object
+				k := 0
+				for _, fl := range hd.Type.Params.List {
+					for _, nm := range fl.Names {
+						if k == ai {
+							prm = g.info.ObjectOf(nm)
+						}
+						k++
+					}
+				}
+				if prm == nil {
+					continue
+				}
+				ast.Inspect(hd.Body, func(m ast.Node) bool {
+					as, ok := m.(*ast.AssignStmt)
+					if !ok || len(as.Lhs) != 1 || len(as.Rhs) != 1 {
+						return true
+					}
+					sel, ok := as.Lhs[0].(*ast.SelectorExpr)
+					if !ok {
+						return true
+					}
+					uses := false
+					ast.Inspect(as.Rhs[0], func(q ast.Node) bool {
+						if id, ok := q.(*ast.Ident); ok && g.info.ObjectOf(id) == prm {
+							uses = true
+						}
+						return true
+					})
+					if uses {
+						res.tail = snake(sel.Sel.Name)
+					}
+					return true
+				})
+			}
+			return true
+		})
+	}
 	toks := append([]Tok{}, d.toks...)
 	for i := range toks {
 		name, has := names[i]
